@@ -714,7 +714,13 @@ impl Blockchain {
             .retain(|_, tx| tx.validate(&self.utxoset, self, true));
         let block = self.get_block(block_hash).unwrap();
         // we call delete_tx after removing invalidated txs, to make sure routing work is calculated after removing all the txs
-        mempool.delete_transactions(&block.transactions);
+        if block.in_longest_chain {
+            mempool.delete_transactions(&block.transactions);
+        } else {
+            // a block that was merely stored next to the chain confirms nothing (nobody validated it): what
+            // it names stays pooled. the reservations and the cached work are still rebuilt
+            mempool.delete_transactions(&vec![]);
+        }
     }
 
     async fn prune_blocks_after_add_block(
